@@ -2,7 +2,7 @@ package main
 
 import (
 	"fmt"
-	"go/constant"
+	"go/token"
 	"os"
 	"sort"
 	"strings"
@@ -10,90 +10,639 @@ import (
 	"golang.org/x/tools/go/ssa"
 )
 
-// ---------------------------------------------------------------- R-CAP
+// ---------------------------------------------------------------- R-SLOT0 / R-CAP
 //
-// Capacity invariant  INV:  cap == 0  ∨  len(hdr) <= cap   for every slice
-// header a stack object ever holds, where cap is the capacity word of the
-// configuration in slot 0.  The invariant is inductive:
+// Two inductive invariants of every slice header a stack object ever holds:
 //
-//   base   newStack stores cap = c+1 (or leaves 0) and a header of length 1
-//          whose make() succeeded with that capacity (so 1 <= cap when cap != 0);
-//   cap    nodeConfig.cap is written by nobody else (R-CAPW), and slot 0 keeps
-//          holding the same configuration (R-SLOT0), so "cap" denotes one value
-//          per stack object for its whole life;
-//   step   every store of a header (`*r = X`, abstract location HDR; the stores
-//          are enumerated from the effect analysis on every run) is proved to
-//          keep INV: on every path state reaching the store, assuming INV for
-//          every header value the function has read from the same object so
-//          far, the linear prover shows  cap == 0  ∨  len(X) <= cap.
+//   SLOT0  len(hdr) >= 1 and hdr[0] is the (non-nil) *nodeConfig the object was
+//          created with;
+//   CAP    cap == 0  ∨  len(hdr) <= cap   (cap >= 0), where cap is the capacity
+//          word of that configuration.
 //
-// Len() == len(hdr)-1 and Cap() == cap-1 (R-CAPEQ), hence Len() <= k.
+// base   newStack builds the header as append(<empty>, cfg) with cfg a fresh
+//        non-nil *nodeConfig whose cap word is 0 or the capacity the make()
+//        succeeded with;
+// frame  nodeConfig.cap is written by nobody else (R-CAPW); an element store
+//        through a stack header uses an index >= 1 (R-SLOT0 element rule);
+// step   every store of a header (`*p = X`, abstract location HDR; enumerated
+//        from the SSA on every run) is proved to keep both: X derives from a
+//        header loaded from the same address by re-slicing from 0 with high >= 1,
+//        appending to a non-empty header, or appending to an empty slice whose
+//        first element is that object's own configuration (SLOT0); and on every
+//        path state reaching the store, assuming CAP for every header the object
+//        held so far, the linear prover shows cap == 0 ∨ len(X) <= cap (CAP).
+//
+// A stack value passed by value (value receivers) is a copy of a loaded
+// header (R-SLOT0 argument rule), so the invariants hold for it as well.
 
-// capSym is the symbolic capacity word of the object a function stores
-// headers into.
 func (c *Ctx) capSym() *Term {
 	return c.eng.tt.mk(Term{K: "G", S: "$cap"})
 }
 
-// isCapLoad recognises the normal form of "the capacity word of a stack
-// header": a load of field nodeConfig.cap.
-func (c *Ctx) isCapLoad(t *Term) bool {
-	if t == nil || t.K != "L" || t.A == nil || t.A.K != "FA" {
-		return false
-	}
-	return c.faFieldName(t.A) == "nodeConfig.cap"
+type hdrStore struct {
+	fn *ssa.Function
+	st *ssa.Store
 }
 
-// faFieldName names the field selected by an FA term (via the type of its base).
-func (c *Ctx) faFieldName(fa *Term) string {
-	if fa.S != "" {
-		return fa.S
-	}
-	return ""
-}
-
-func (c *Ctx) hdrStores() map[*ssa.Function][]*ssa.Store {
-	out := map[*ssa.Function][]*ssa.Store{}
+func (c *Ctx) hdrStores() []hdrStore {
+	var out []hdrStore
 	for _, fn := range c.p.Funcs {
 		for _, b := range fn.Blocks {
 			for _, in := range b.Instrs {
 				if st, ok := in.(*ssa.Store); ok && c.eff.classifyAddr(st.Addr) == "HDR" {
-					out[fn] = append(out[fn], st)
+					out = append(out, hdrStore{fn, st})
 				}
 			}
 		}
 	}
+	sort.SliceStable(out, func(i, j int) bool { return relName(out[i].fn) < relName(out[j].fn) })
 	return out
 }
 
-func (c *Ctx) ruleCapInv() {
-	dbg := os.Getenv("CAPDEBUG") != ""
-	stores := c.hdrStores()
-	var fns []*ssa.Function
-	for fn := range stores {
-		fns = append(fns, fn)
+func (c *Ctx) le1Len(fa *FnAnalysis, s *State, v ssa.Value, sv []ssa.Value) bool {
+	lt := c.eng.tt.mk(Term{K: "LEN", A: fa.term(s, v)})
+	return c.provesFact(fa, s, Fact{aTR, c.eng.tt.mk(Term{K: "B", S: "<=", A: c.intConst(1), B: lt}), true}, sv)
+}
+
+func (c *Ctx) lenIs0(fa *FnAnalysis, s *State, v ssa.Value, sv []ssa.Value) bool {
+	if isNilConst(v) {
+		return true
 	}
-	sort.Slice(fns, func(i, j int) bool { return relName(fns[i]) < relName(fns[j]) })
-	for _, fn := range fns {
+	if m, ok := v.(*ssa.MakeSlice); ok {
+		if k, ok := constIntOf(m.Len); ok && k == 0 {
+			return true
+		}
+	}
+	lt := c.eng.tt.mk(Term{K: "LEN", A: fa.term(s, v)})
+	return c.provesFact(fa, s, Fact{aTR, c.eng.tt.mk(Term{K: "B", S: "<=", A: lt, B: c.intConst(0)}), true}, nil)
+}
+
+// sameObjectLoad: v is a load of a stack header from the address `addr`
+// (same SSA pointer, or the same term in state s).
+func (c *Ctx) sameObjectLoad(fa *FnAnalysis, s *State, v ssa.Value, addr ssa.Value) bool {
+	u, ok := v.(*ssa.UnOp)
+	if !ok || u.Op != token.MUL {
+		return false
+	}
+	if u.X == addr {
+		return true
+	}
+	return fa.term(s, u.X) == fa.term(s, addr)
+}
+
+// slot0From: the value v (type stack) is a header whose slot 0 is the
+// configuration of the object stored at addr.
+func (c *Ctx) slot0From(fa *FnAnalysis, s *State, v ssa.Value, addr ssa.Value, sv []ssa.Value, seen map[ssa.Value]bool) (bool, string) {
+	if seen[v] {
+		return true, ""
+	}
+	seen[v] = true
+	switch x := v.(type) {
+	case *ssa.UnOp:
+		if x.Op == token.MUL {
+			if bv, ok := s.bind[x]; ok && bv != nil && bv != ssa.Value(x) {
+				return c.slot0From(fa, s, bv, addr, sv, seen)
+			}
+			if c.sameObjectLoad(fa, s, x, addr) {
+				return true, ""
+			}
+			return false, "a header loaded from a different object"
+		}
+	case *ssa.ChangeType:
+		return c.slot0From(fa, s, x.X, addr, sv, seen)
+	case *ssa.Phi:
+		for _, e := range x.Edges {
+			if ok, why := c.slot0From(fa, s, e, addr, sv, seen); !ok {
+				return false, why
+			}
+		}
+		return true, ""
+	case *ssa.Slice:
+		if _, isArr := derefArray(x.X.Type()); isArr {
+			return false, "a slice of an array"
+		}
+		if x.Low != nil {
+			if k, ok := constIntOf(x.Low); !ok || k != 0 {
+				return false, "re-sliced from a non-zero low bound: slot 0 is dropped"
+			}
+		}
+		if x.High != nil {
+			ht := fa.term(s, x.High)
+			if !c.provesFact(fa, s, Fact{aTR, c.eng.tt.mk(Term{K: "B", S: "<=", A: c.intConst(1), B: ht}), true}, sv) {
+				return false, "re-sliced with a high bound not proved >= 1: slot 0 may be dropped"
+			}
+		}
+		return c.slot0From(fa, s, x.X, addr, sv, seen)
+	case *ssa.Call:
+		if b, ok := x.Call.Value.(*ssa.Builtin); ok && b.Name() == "append" && len(x.Call.Args) == 2 {
+			A := x.Call.Args[0]
+			if c.lenIs0(fa, s, A, sv) {
+				elems := variadicElems(x.Call.Args[1])
+				if len(elems) >= 1 && c.isCfgOf(fa, s, elems[0], addr) {
+					return true, ""
+				}
+				return false, "append to an empty slice whose first element is not the object's configuration"
+			}
+			if ok, _ := c.slot0From(fa, s, A, addr, sv, seen); ok && c.le1Len(fa, s, A, sv) {
+				return true, ""
+			}
+			return false, "append to a slice that is neither a non-empty header of the object nor provably empty"
+		}
+	}
+	return false, "value of unknown origin (" + strings.TrimSpace(fmt.Sprintf("%T", v)) + ")"
+}
+
+// isCfgOf: v is the configuration pointer found in slot 0 of the object at
+// addr, converted to `any`.
+func (c *Ctx) isCfgOf(fa *FnAnalysis, s *State, v ssa.Value, addr ssa.Value) bool {
+	mi, ok := v.(*ssa.MakeInterface)
+	if !ok || !c.p.isPtrToNamed(mi.X.Type(), "nodeConfig") {
+		return false
+	}
+	t := fa.term(s, mi.X)
+	return c.isCfgTerm(fa, s, t, addr)
+}
+
+func (c *Ctx) isCfgTerm(fa *FnAnalysis, s *State, t *Term, addr ssa.Value) bool {
+	at := fa.term(s, addr)
+	// TA(*nodeConfig, L(IA(L(addr@e#HDR), 0)))
+	if t.K == "TA" && t.A != nil && t.A.K == "L" && t.A.A != nil && t.A.A.K == "IA" {
+		ia := t.A.A
+		if ia.B != nil && ia.B.K == "C" && ia.B.S == "0" && ia.A != nil && ia.A.K == "L" && ia.A.S == "HDR" && ia.A.A == at {
+			return true
+		}
+	}
+	// X(APP((*stack).config@e: AL(addr)), 0)
+	if t.K == "X" && t.N == 0 && t.A != nil && t.A.K == "APP" && t.A.S == "(*stack).config" && t.A.A != nil && t.A.A.A == at {
+		return true
+	}
+	return false
+}
+
+func (c *Ctx) ruleSlot0() {
+	rep := c.rep
+	stores := c.hdrStores()
+	ords := map[*ssa.Function]*ordinal{}
+	nReal := 0
+	for _, hs := range stores {
+		fn, st := hs.fn, hs.st
+		if ords[fn] == nil {
+			ords[fn] = newOrdinal()
+		}
+		pos := c.p.instrPos(st)
+		// spilled value receiver / local copy: a fresh local cell initialised with a header passed by value
+		if al, _ := allocCell(st.Addr); al != nil && ssa.Value(al) == st.Addr {
+			if p, isParam := st.Val.(*ssa.Parameter); isParam && c.p.isNamed(p.Type(), "stack") {
+				continue // a by-value copy of a header (argument rule below)
+			}
+			if relName(fn) == "newStack" {
+				continue // creation: judged as a whole below
+			}
+		}
+		construct := ords[fn].next("store *r")
+		nReal++
 		fa := c.eng.analyze(fn, nil)
-		ord := newOrdinal()
-		for _, st := range stores[fn] {
-			construct := ord.next("store *r")
-			pos := c.p.instrPos(st)
-			if dbg {
-				fmt.Printf("== %s %s %s\n", relName(fn), pos, construct)
-				for _, s := range fa.statesBefore(st) {
-					fmt.Printf("   new=%s\n", fa.term(s, st.Val).key)
-					var fs []string
-					for _, f := range s.factList() {
-						if f.Kind == aTR {
-							fs = append(fs, fmt.Sprintf("%s=%v", f.T.key, f.Val))
+		sv := c.stackValues(fn)
+		var problems []string
+		for _, s := range fa.statesBefore(st) {
+			if c.stateInfeasible(fa, s, sv) {
+				continue
+			}
+			if ok, why := c.slot0From(fa, s, st.Val, st.Addr, sv, map[ssa.Value]bool{}); !ok {
+				problems = append(problems, why)
+			}
+		}
+		if !fa.reachable(st) {
+			rep.ok("R-SLOT0", relName(fn), construct, pos, "unreachable")
+			continue
+		}
+		if len(problems) == 0 {
+			rep.ok("R-SLOT0", relName(fn), construct, pos, "the stored header keeps slot 0: derived from the object's own header (re-slice from 0 with high >= 1, append to a non-empty header, or rebuilt from its own configuration)")
+		} else {
+			sort.Strings(problems)
+			rep.bad("R-SLOT0", relName(fn), construct, pos, "the stored header may lose or replace the configuration slot: "+strings.Join(uniq(problems), "; "))
+		}
+	}
+	if nReal < 8 {
+		rep.bad("R-SLOT0", "package", "header stores", "?", fmt.Sprintf("only %d header stores found (expected >= 8): the store enumeration no longer matches the code", nReal))
+	}
+	c.ruleSlot0New()
+	c.ruleSlot0Args()
+	c.ruleSlot0Elems()
+}
+
+// ruleSlot0New: the only place a stack object is created is newStack, whose
+// header is append(<empty>, cfg) with cfg a fresh *nodeConfig.
+func (c *Ctx) ruleSlot0New() {
+	rep := c.rep
+	// every escaping allocation of a `stack` cell outside newStack is a spilled by-value copy
+	for _, fn := range c.p.Funcs {
+		for _, b := range fn.Blocks {
+			for _, in := range b.Instrs {
+				al, ok := in.(*ssa.Alloc)
+				if !ok || !c.p.isNamed(derefType(al.Type()), "stack") {
+					continue
+				}
+				if relName(fn) == "newStack" {
+					continue
+				}
+				// stores into it
+				okInit := true
+				n := 0
+				for _, r := range *al.Referrers() {
+					if st, isSt := r.(*ssa.Store); isSt && st.Addr == ssa.Value(al) {
+						n++
+						if p, isParam := st.Val.(*ssa.Parameter); !isParam || !c.p.isNamed(p.Type(), "stack") {
+							okInit = false
 						}
 					}
-					fmt.Printf("      %s\n", strings.Join(fs, "\n      "))
+				}
+				if n == 0 || !okInit {
+					// a local stack variable built piecemeal: fine as long as it never escapes as *stack
+					fa := c.eng.analyze(fn, nil)
+					if info := fa.allocs[al]; info == nil || info.opaque {
+						rep.bad("R-SLOT0", relName(fn), "stack cell "+al.Comment, c.p.instrPos(al), "a stack object is created outside newStack (its header is not known to start with the configuration slot)")
+					}
 				}
 			}
 		}
 	}
-	_ = constant.MakeInt64
+	fn := c.anchor("R-SLOT0", "newStack")
+	if fn == nil {
+		return
+	}
+	var cell *ssa.Alloc
+	var cfg *ssa.Alloc
+	for _, b := range fn.Blocks {
+		for _, in := range b.Instrs {
+			if al, ok := in.(*ssa.Alloc); ok {
+				if c.p.isNamed(derefType(al.Type()), "stack") {
+					cell = al
+				}
+				if c.p.isNamed(derefType(al.Type()), "nodeConfig") {
+					cfg = al
+				}
+			}
+		}
+	}
+	pos := c.p.pos(fn.Pos())
+	if cell == nil || cfg == nil {
+		rep.bad("R-SLOT0", "newStack", "creation", pos, "newStack no longer allocates one stack cell and one nodeConfig")
+		return
+	}
+	var appendStore *ssa.Store
+	var problems []string
+	for _, r := range *cell.Referrers() {
+		st, ok := r.(*ssa.Store)
+		if !ok || st.Addr != ssa.Value(cell) {
+			continue
+		}
+		if m, isMake := st.Val.(*ssa.MakeSlice); isMake {
+			if k, ok := constIntOf(m.Len); !ok || k != 0 {
+				problems = append(problems, "make() with a non-zero length")
+			}
+			continue
+		}
+		call, isCall := st.Val.(*ssa.Call)
+		if isCall {
+			if b, ok := call.Call.Value.(*ssa.Builtin); ok && b.Name() == "append" && len(call.Call.Args) == 2 {
+				elems := variadicElems(call.Call.Args[1])
+				ld, isLoad := call.Call.Args[0].(*ssa.UnOp)
+				if len(elems) == 1 && isLoad && ld.X == ssa.Value(cell) {
+					if mi, ok := elems[0].(*ssa.MakeInterface); ok && mi.X == ssa.Value(cfg) {
+						if appendStore != nil {
+							problems = append(problems, "more than one append of the configuration")
+						}
+						appendStore = st
+						continue
+					}
+				}
+			}
+		}
+		problems = append(problems, "the header cell is stored with something other than an empty make() or append(st, cfg)")
+	}
+	if appendStore == nil {
+		problems = append(problems, "no `st = append(st, cfg)` found")
+	} else {
+		// the append is executed on every path to the return and nothing is stored after it
+		for _, b := range fn.Blocks {
+			for _, in := range b.Instrs {
+				if _, ok := in.(*ssa.Return); ok && !appendStore.Block().Dominates(b) {
+					problems = append(problems, "a return path does not pass the append of the configuration")
+				}
+				if st, ok := in.(*ssa.Store); ok && st.Addr == ssa.Value(cell) && st != appendStore && appendStore.Block().Dominates(b) && (b != appendStore.Block() || instrIndex(st) > instrIndex(appendStore)) {
+					problems = append(problems, "the header is stored again after the configuration was appended")
+				}
+			}
+		}
+	}
+	// the returned pointer is the cell
+	for _, b := range fn.Blocks {
+		for _, in := range b.Instrs {
+			if ret, ok := in.(*ssa.Return); ok {
+				if len(ret.Results) != 1 || ret.Results[0] != ssa.Value(cell) {
+					problems = append(problems, "newStack returns something other than the cell it initialised")
+				}
+			}
+		}
+	}
+	if len(problems) == 0 {
+		rep.ok("R-SLOT0", "newStack", "creation", pos, "the new object's header is append(<empty>, cfg) with cfg a fresh *nodeConfig, on every return path")
+	} else {
+		sort.Strings(problems)
+		rep.bad("R-SLOT0", "newStack", "creation", pos, strings.Join(uniq(problems), "; "))
+	}
+}
+
+func instrIndex(in ssa.Instruction) int {
+	for i, x := range in.Block().Instrs {
+		if x == in {
+			return i
+		}
+	}
+	return -1
+}
+
+// ruleSlot0Args: a value of type stack passed to a function (value
+// receivers) is a loaded header or a by-value parameter handed on.
+func (c *Ctx) ruleSlot0Args() {
+	rep := c.rep
+	n := 0
+	bad := 0
+	for _, fn := range c.p.Funcs {
+		ord := newOrdinal()
+		for _, b := range fn.Blocks {
+			for _, in := range b.Instrs {
+				cc := callCommon(in)
+				if cc == nil {
+					continue
+				}
+				for _, a := range cc.Args {
+					if !c.p.isNamed(a.Type(), "stack") {
+						continue
+					}
+					n++
+					okArg := false
+					switch x := a.(type) {
+					case *ssa.Parameter:
+						okArg = true
+					case *ssa.UnOp:
+						if x.Op == token.MUL && c.eff.classifyAddr(x.X) == "HDR" {
+							okArg = true
+						}
+					}
+					if !okArg {
+						bad++
+						name := "?"
+						if cal := c.p.callee(cc); cal != nil {
+							name = shortFn(cal)
+						}
+						rep.bad("R-SLOT0", relName(fn), ord.next("stack argument of "+name), c.p.instrPos(in), "a stack value that is not a loaded header is passed by value: callees assume slot 0 holds the configuration")
+					}
+				}
+			}
+		}
+	}
+	if bad == 0 {
+		rep.ok("R-SLOT0", "package", "stack values passed by value", "?", fmt.Sprintf("all %d by-value stack arguments are loaded headers or forwarded by-value parameters", n))
+	}
+	if n < 100 {
+		rep.bad("R-SLOT0", "package", "stack arguments", "?", fmt.Sprintf("only %d by-value stack arguments found (expected >= 100)", n))
+	}
+}
+
+// ruleSlot0Elems: an element store through a stack header uses index >= 1.
+func (c *Ctx) ruleSlot0Elems() {
+	rep := c.rep
+	n := 0
+	for _, fn := range c.p.Funcs {
+		var fa *FnAnalysis
+		ord := newOrdinal()
+		for _, b := range fn.Blocks {
+			for _, in := range b.Instrs {
+				st, ok := in.(*ssa.Store)
+				if !ok {
+					continue
+				}
+				ia, ok := st.Addr.(*ssa.IndexAddr)
+				if !ok || !c.p.isNamed(ia.X.Type(), "stack") {
+					continue
+				}
+				n++
+				if fa == nil {
+					fa = c.eng.analyze(fn, nil)
+				}
+				sv := c.stackValues(fn)
+				construct := ord.next("element store")
+				okAll := true
+				for _, s := range fa.statesBefore(st) {
+					if c.stateInfeasible(fa, s, sv) {
+						continue
+					}
+					it := fa.term(s, ia.Index)
+					if !c.provesFact(fa, s, Fact{aTR, c.eng.tt.mk(Term{K: "B", S: "<=", A: c.intConst(1), B: it}), true}, sv) {
+						// a slice under construction that is not yet a header (rebuilt copy): index into a local value
+						okAll = false
+					}
+				}
+				if okAll {
+					rep.ok("R-SLOT0", relName(fn), construct, c.p.instrPos(st), "index >= 1 on every path: the configuration slot is never overwritten")
+				} else {
+					rep.bad("R-SLOT0", relName(fn), construct, c.p.instrPos(st), "an element store through a stack header is not proved to use index >= 1: the configuration slot may be overwritten")
+				}
+			}
+		}
+	}
+	if n < 3 {
+		rep.bad("R-SLOT0", "package", "element stores", "?", fmt.Sprintf("only %d element stores found (expected >= 3)", n))
+	}
+}
+
+// ---------------------------------------------------------------- R-CAPW
+
+// ruleCapW: the capacity word is written only by newStack, into the
+// configuration it has just allocated.
+func (c *Ctx) ruleCapW() {
+	rep := c.rep
+	n := 0
+	for _, fn := range c.p.Funcs {
+		ord := newOrdinal()
+		for _, b := range fn.Blocks {
+			for _, in := range b.Instrs {
+				st, ok := in.(*ssa.Store)
+				if !ok {
+					continue
+				}
+				if f, ok := st.Addr.(*ssa.FieldAddr); ok && fieldName(f) == "nodeConfig.cap" {
+					n++
+					_, isAlloc := f.X.(*ssa.Alloc)
+					if relName(fn) == "newStack" && isAlloc {
+						rep.ok("R-CAPW", relName(fn), ord.next("store nodeConfig.cap"), c.p.instrPos(in), "capacity word initialised on the fresh configuration")
+					} else {
+						rep.bad("R-CAPW", relName(fn), ord.next("store nodeConfig.cap"), c.p.instrPos(in), "the capacity of an existing stack is overwritten: Cap() would change after creation")
+					}
+					continue
+				}
+				// whole-struct store into a configuration
+				if c.p.isPtrToNamed(st.Addr.Type(), "nodeConfig") {
+					if _, isAlloc := st.Addr.(*ssa.Alloc); !isAlloc {
+						rep.bad("R-CAPW", relName(fn), ord.next("store *nodeConfig"), c.p.instrPos(in), "a whole configuration is overwritten (capacity included)")
+					}
+				}
+			}
+		}
+	}
+	if n == 0 {
+		rep.bad("R-CAPW", "package", "store nodeConfig.cap", "?", "no initialisation of the capacity word found")
+	}
+}
+
+// ---------------------------------------------------------------- R-CAP (step)
+
+// headerTerms collects the header terms of the object at address term `at`
+// occurring in the facts of s: loads L(at@e#HDR).
+func collectSub(t *Term, pred func(*Term) bool, out map[*Term]bool) {
+	if t == nil {
+		return
+	}
+	if pred(t) {
+		out[t] = true
+	}
+	collectSub(t.A, pred, out)
+	collectSub(t.B, pred, out)
+}
+
+// capHypotheses returns a copy of s in which (a) every capacity reading of a
+// header of the object is equated with the symbol K, (b) CAP is assumed for
+// every header the object held (case K != 0), (c) the verdicts of isFull on
+// such headers are expanded (R-CAPEQ proves isFull(h) == (K != 0 ∧ len(h) == K)).
+func (c *Ctx) capHypotheses(fa *FnAnalysis, s *State, at *Term, extra []*Term) *State {
+	tt := c.eng.tt
+	K := c.capSym()
+	tmp := s.clone()
+	tmp.frozen = false
+	hdrs := map[*Term]bool{}
+	apps := map[*Term]bool{}
+	isHdr := func(t *Term) bool { return t.K == "L" && t.S == "HDR" && t.A == at }
+	isApp := func(t *Term) bool { return t.K == "APP" }
+	for _, f := range s.factList() {
+		collectSub(f.T, isHdr, hdrs)
+		collectSub(f.T, isApp, apps)
+	}
+	for _, t := range s.terms {
+		collectSub(t, isHdr, hdrs)
+		collectSub(t, isApp, apps)
+	}
+	for _, t := range extra {
+		hdrs[t] = true
+		collectSub(t, isApp, apps)
+	}
+	zero := c.intConst(0)
+	eq := func(a, b *Term) *Term {
+		if a.key > b.key {
+			a, b = b, a
+		}
+		return tt.mk(Term{K: "B", S: "==", A: a, B: b})
+	}
+	// K >= 1 (case K != 0; K >= 0 holds by the base case)
+	tmp.add(aTR, tt.mk(Term{K: "B", S: "<=", A: c.intConst(1), B: K}), true)
+	var hl []*Term
+	for h := range hdrs {
+		hl = append(hl, h)
+	}
+	sort.Slice(hl, func(i, j int) bool { return hl[i].key < hl[j].key })
+	for _, h := range hl {
+		tmp.add(aTR, tt.mk(Term{K: "B", S: "<=", A: tt.mk(Term{K: "LEN", A: h}), B: K}), true)
+		tmp.add(aTR, tt.mk(Term{K: "B", S: "<=", A: c.intConst(1), B: tt.mk(Term{K: "LEN", A: h})}), true)
+	}
+	var al []*Term
+	for a := range apps {
+		al = append(al, a)
+	}
+	sort.Slice(al, func(i, j int) bool { return al[i].key < al[j].key })
+	for _, a := range al {
+		if a.A == nil || a.A.B != nil || !hdrs[a.A.A] {
+			continue // not a one-argument call on a header of the object
+		}
+		h := a.A.A
+		switch a.S {
+		case "stack.cap":
+			tmp.add(aTR, eq(a, K), true)
+		case "stack.isFull":
+			if v, known := s.get(aTR, a); known {
+				// isFull(h) == (K != 0 ∧ len(h) == K); here K != 0
+				tmp.add(aTR, eq(tt.mk(Term{K: "LEN", A: h}), K), v)
+			}
+		}
+	}
+	_ = zero
+	return tmp
+}
+
+func (c *Ctx) ruleCapInv() {
+	rep := c.rep
+	dbg := os.Getenv("CAPDEBUG") != ""
+	tt := c.eng.tt
+	K := c.capSym()
+	ords := map[*ssa.Function]*ordinal{}
+	n := 0
+	for _, hs := range c.hdrStores() {
+		fn, st := hs.fn, hs.st
+		if al, _ := allocCell(st.Addr); al != nil && ssa.Value(al) == st.Addr {
+			if p, isParam := st.Val.(*ssa.Parameter); isParam && c.p.isNamed(p.Type(), "stack") {
+				continue
+			}
+			if relName(fn) == "newStack" {
+				continue
+			}
+		}
+		if ords[fn] == nil {
+			ords[fn] = newOrdinal()
+		}
+		construct := ords[fn].next("store *r")
+		pos := c.p.instrPos(st)
+		n++
+		fa := c.eng.analyze(fn, nil)
+		sv := c.stackValues(fn)
+		var problems []string
+		for _, s := range fa.statesBefore(st) {
+			if c.stateInfeasible(fa, s, sv) {
+				continue
+			}
+			at := fa.term(s, st.Addr)
+			var extra []*Term
+			if cell, ok := s.heap[at.key]; ok {
+				extra = append(extra, fa.term(s, cell.val))
+			}
+			tmp := c.capHypotheses(fa, s, at, extra)
+			newLen := tt.mk(Term{K: "LEN", A: fa.term(s, st.Val)})
+			goal := Fact{aTR, tt.mk(Term{K: "B", S: "<=", A: newLen, B: K}), true}
+			if c.stateInfeasible(fa, tmp, nil) {
+				continue // the path is taken only without a capacity (K == 0): nothing to show
+			}
+			if !c.provesFactUncached(fa, tmp, goal, nil) {
+				if dbg {
+					fmt.Printf("CAP FAIL %s %s new=%s\n", relName(fn), pos, fa.term(s, st.Val).key)
+					for _, f := range tmp.factList() {
+						if f.Kind == aTR {
+							fmt.Printf("      %s=%v\n", f.T.key, f.Val)
+						}
+					}
+				}
+				problems = append(problems, "len(new header) <= capacity is not implied on a path where a capacity is set")
+			}
+		}
+		if !fa.reachable(st) {
+			rep.ok("R-CAP", relName(fn), construct, pos, "unreachable")
+			continue
+		}
+		if len(problems) == 0 {
+			rep.ok("R-CAP", relName(fn), construct, pos, "cap == 0 ∨ len(new header) <= cap proved on every path (linear entailment from the path's guards, assuming the invariant for the headers read so far)")
+		} else {
+			rep.bad("R-CAP", relName(fn), construct, pos, "the stored header may exceed the capacity: "+strings.Join(uniq(problems), "; "))
+		}
+	}
+	if n < 8 {
+		rep.bad("R-CAP", "package", "header stores", "?", fmt.Sprintf("only %d header stores found (expected >= 8)", n))
+	}
 }
